@@ -1399,6 +1399,139 @@ func (w *bWorld) failedAttenuationEpisode() {
 		strings.Join(outs, " | "))
 }
 
+// dischargeLocationEpisode: the Location of a discharge is the minter's choice and is not signed; a
+// discharge answers a third-party caveat by its TICKET (key-id), whatever its Location says.  Here
+// the discharge's Location differs from the Location written in the caveat (trailing slash, case,
+// something else entirely, empty): it must survive ParseBundle's DefaultFilter and WithDischarges,
+// and the token must verify with it.
+func (w *bWorld) dischargeLocationEpisode() {
+	r, o := w.r, w.o
+	ctx := context.Background()
+	var bs []*bundle.Bundle
+	var ops, outs []string
+	defer func() {
+		if p := recover(); p != nil {
+			msg := strings.ReplaceAll(strings.SplitN(fmt.Sprint(p), "\n", 2)[0], " ", "_")
+			o.emit(fmt.Sprintf("(bundle.run (scope %s) %s %s %s %s)", bundleScope, w.sxKeys(), sxTrust(w.trusted), hs(w.permLoc), strings.Join(ops, " ")), "panic:"+msg)
+		}
+	}()
+	step := func(op, out string) {
+		ops = append(ops, op)
+		outs = append(outs, out+"~"+statesStr(bs))
+	}
+	kid := w.kids[0]
+	tp := w.tps[0]
+	m, err := macaroon.New(kid, w.permLoc, w.keys[string(kid)])
+	if err != nil {
+		panic(err)
+	}
+	m.Add(&flyio.Organization{ID: 1, Mask: resset.ActionAll})
+	it, err := newTP(tp.ka, tp.loc)
+	if err != nil {
+		panic(err)
+	}
+	if err := m.Add(it.cav); err != nil {
+		panic(err)
+	}
+	how := pick(r, []string{"slash", "slash", "case", "other", "empty", "same", "permloc"})
+	dloc := tp.loc
+	switch how {
+	case "slash":
+		dloc = tp.loc + "/"
+	case "case":
+		dloc = strings.ToUpper(tp.loc)
+	case "other":
+		dloc = "https://entirely.elsewhere.example"
+	case "empty":
+		dloc = ""
+	case "permloc": // located at the permission location: then it is no discharge at all
+		dloc = w.permLoc
+	}
+	o.count("disloc." + how)
+	trusted := map[string][]macaroon.EncryptionKey{}
+	for k, v := range w.trusted {
+		trusted[k] = v
+	}
+	if r.Bool() { // trust is looked up under the DISCHARGE's location
+		trusted[dloc] = []macaroon.EncryptionKey{tp.ka}
+	}
+	saved := w.trusted
+	w.trusted = trusted
+	defer func() { w.trusted = saved }()
+	_, dm, err := macaroon.DischargeTicket(tp.ka, dloc, it.tp.ticket)
+	if err != nil {
+		panic(err)
+	}
+	ro := resset.ActionRead
+	dm.Add(&ro)
+	if r.Bool() {
+		a := auth.FlyioUserID(11)
+		dm.Add(&a)
+	}
+	parts := []string{b64tok(w.label(), mustEnc(m)), b64tok(w.label(), mustEnc(dm))}
+	if r.Chance(1, 3) { // and a discharge for nobody's ticket
+		ot, _ := newTP(tp.ka, tp.loc)
+		_, xm, _ := macaroon.DischargeTicket(tp.ka, tp.loc, ot.tp.ticket)
+		parts = append(parts, b64tok(w.label(), mustEnc(xm)))
+	}
+	for i := len(parts) - 1; i > 0; i-- {
+		j := r.Intn(i + 1)
+		parts[i], parts[j] = parts[j], parts[i]
+	}
+	hdr := "FlyV1 " + strings.Join(parts, ",")
+	d := r.Dyn()
+	d.WF, d.NowSec, d.NowNsec, d.Org, d.Action = "", baseNow, 0, p64(1), resset.ActionRead
+	acc, accSx := d.As("org"), d.Sx("org")
+	verify := func(i int) {
+		cs, err := bs[i].Verify(ctx, w.resolver())
+		o.count("disloc.verify." + flagStr(err))
+		step(fmt.Sprintf("(verify %d)", i), setsStr(cs, err))
+		step(fmt.Sprintf("(validate %d %s)", i, accSx), flagStr(bs[i].Validate(acc)))
+	}
+	keepAll := r.Chance(1, 3)
+	var b *bundle.Bundle
+	var perr error
+	fsx := "default"
+	if keepAll {
+		b, perr = bundle.ParseBundleWithFilter(w.permLoc, hdr, bundle.KeepAll)
+		fsx = "all"
+	} else {
+		b, perr = bundle.ParseBundle(w.permLoc, hdr)
+	}
+	bs = append(bs, b)
+	e := "n"
+	if perr != nil {
+		e = "e"
+	}
+	step(fmt.Sprintf("(parse %s %s)", hs(hdr), fsx), "new0:"+e)
+	step("(len 0)", fmt.Sprint(b.Len()))
+	step("(header 0)", hs(b.Header()))
+	// WithDischarges must take the discharge along
+	bs = append(bs, b.Select(b.WithDischarges(b.IsPermissionToken)))
+	step("(select 0 (withDischarges perm))", fmt.Sprintf("new%d", len(bs)-1))
+	step("(count 0 (withDischarges unv))", fmt.Sprint(b.Count(b.WithDischarges(bundle.IsUnverifiedMacaroon))))
+	verify(1)
+	if keepAll {
+		b.Filter(bundle.DefaultFilter(b.IsPermissionToken))
+		step("(filter 0 default)", "-")
+	}
+	verify(0)
+	step(fmt.Sprintf("(undischargedFor 0 %s)", hs(tp.loc)), func() string {
+		ts := b.UndischargedTicketsForThirdParty(tp.loc)
+		p := make([]string, len(ts))
+		for x, t := range ts {
+			p[x] = hx(t)
+		}
+		return "u:" + strings.Join(p, ",")
+	}())
+	bs = append(bs, b.Clone())
+	step("(clone 0)", fmt.Sprintf("new%d", len(bs)-1))
+	verify(2)
+	o.emit(fmt.Sprintf("(bundle.run (scope %s) %s %s %s %s)", bundleScope, w.sxKeys(), sxTrust(w.trusted), hs(w.permLoc), strings.Join(ops, " ")),
+		strings.Join(outs, " | "))
+	w.specBundle(hdr)
+}
+
 // ---- flyio/bundle.go ----
 
 // flyioEpisode: a bundle parsed with flyio.ParseBundle(WithFilter) from tokens of the four Fly.io
@@ -1641,6 +1774,7 @@ func famBundle(r *Rng, o *Out, tier string) {
 		w.tpAttenuationEpisode()
 		w.partialDischargeEpisode()
 		w.failedAttenuationEpisode()
+		w.dischargeLocationEpisode()
 		flyioEpisode(r, o)
 	}
 }
